@@ -2,6 +2,9 @@ import PromModel.Tsdb.WalFrame
 import PromModel.Suites.WalSuite
 import PromProofs.WalRoundtrip
 import PromProofs.WalLayout
+import PromProofs.WalLiveSim
+import PromProofs.WalLiveToks
+import PromProofs.WalTruncate
 /-
   C13 — The write-ahead log returns exactly the records written.
   Property theorems only; the model is PromModel/Tsdb/WalFrame.lean, helper lemmas are in
@@ -78,10 +81,12 @@ theorem page_layout_inv (ps pps : Nat) (crc : Crc) (hps : WF ps) (batches : List
   The model (`lrReadRecord`, `lrBuild`, `lrNext`, `lrDrain`, `liveRun`) transcribes live_reader.go and is
   tied to the real `LiveReader` by the suite `wal` (ops `liveread`, `liveall`, `livecuts`, `livemut`) at
   every `Log` boundary and at generated prefix lengths around fragment headers/ends and page ends.
-  The general theorem below is **not proved** in this revision; it needs an invariant relating the
-  LiveReader's buffer window `(buf, readIndex, total, index, pre)` to the position in the fragment
-  structure given by `page_layout_inv` across arbitrary partial fills, which was not completed.
-  What is proved is the instance `live_reader_small_witness`. -/
+  The general theorem `live_reader_eq` below is proved by simulating `buildRecord`/`Next`/the drain loop
+  against the token structure of the file (`LToks`, derived from `page_layout_inv` and the successful
+  `Reader` run): the LiveReader's buffer is always a partly filled page of the file, `readIndex` a token
+  boundary, `(index, rec)` agree with the `Reader`'s fragment state; `Next` returns a record as soon as
+  its last fragment is wholly visible and otherwise `io.EOF` after having fetched every visible byte
+  (`lrNext_spec`, PromProofs/WalLiveSim.lean); no fuel of the model runs out. -/
 
 /-- Full statement: for every segment file of every log and every way of observing it grow (`chunks` =
     the successive pieces appended between observations, any lengths, `chunks.flatten = seg`), the
@@ -95,6 +100,92 @@ def live_reader_eq_full : Prop :=
       obs.length = chunks.length ∧ (∀ o ∈ obs, o.2 = LStatus.eof) ∧
         (obs.map (·.1)).flatten = (readAll ps crc [seg]).1
 
+/-- **LiveReader = Reader on page-structured files.** For ANY byte string `F` made of pages of whole
+    fragments followed by zeros (the writer's layout invariant, `page_layout_inv`) that the `Reader`
+    reads to its end without error, and ANY way of observing it grow, the LiveReader drained after each
+    observation always ends with `io.EOF` (it waits on a partial fragment or record; it never reports
+    corruption, never gets stuck) and returns over all observations exactly the `Reader`'s records, in
+    order, each once. -/
+theorem live_reader_agrees_with_reader (ps : Nat) (crc : Crc) (hps : WF ps) (F : Bytes)
+    (hF : PagesOK ps crc F) (out : List Bytes) (e : Nat)
+    (hr : rloop ps crc RState.init F = (out, .eof e)) (chunks : List Bytes) (hc : chunks.flatten = F) :
+    (liveRun ps crc LState.init [] chunks).length = chunks.length ∧
+    (∀ o ∈ liveRun ps crc LState.init [] chunks, o.2 = LStatus.eof) ∧
+    ((liveRun ps crc LState.init [] chunks).map (·.1)).flatten = out := by
+  have htoks : LToks ps crc 0 0 [] F out := ltoks_of_pages hps.2 hF hr
+  refine liveRun_spec hps.1 hps.2 chunks LState.init [] F out
+    ⟨⟨Nat.le_refl _, by simp [LState.init], Nat.le_refl _, Nat.zero_le _⟩, htoks, by simp [LState.init, hc]⟩ ?_
+  intro h0
+  rw [h0] at hc
+  exact htoks.out_of_nil hc.symm
+
+/-- The same for a file whose last page is still open (whole fragments, not yet padded) — the state of
+    the active segment after any `Log`. -/
+theorem live_reader_open_file (ps : Nat) (crc : Crc) (hps : WF ps) (full last : Bytes)
+    (hF : PagesOK ps crc full) (hl : Frames crc last) (hll : last.length ≤ ps) (out : List Bytes) (e : Nat)
+    (hr : rloop ps crc RState.init (full ++ last) = (out, .eof e)) (chunks : List Bytes)
+    (hc : chunks.flatten = full ++ last) :
+    (liveRun ps crc LState.init [] chunks).length = chunks.length ∧
+    (∀ o ∈ liveRun ps crc LState.init [] chunks, o.2 = LStatus.eof) ∧
+    ((liveRun ps crc LState.init [] chunks).map (·.1)).flatten = out := by
+  have htoks : LToks ps crc 0 0 [] (full ++ last) out := ltoks_of_open hps.2 hF hl hll hr
+  refine liveRun_spec hps.1 hps.2 chunks LState.init [] (full ++ last) out
+    ⟨⟨Nat.le_refl _, by simp [LState.init], Nat.le_refl _, Nat.zero_le _⟩, htoks, by simp [LState.init, hc]⟩ ?_
+  intro h0
+  rw [h0] at hc
+  exact htoks.out_of_nil hc.symm
+
+/-- **Promptness.** Once the reader has observed exactly the bytes of such a file (in any number of
+    steps), it has returned exactly the file's records — whatever is appended to the file afterwards
+    (`later`: any bytes at all).  With `live_reader_active_segment`: after every `Log` the tailing reader
+    has returned every record logged so far, no more, no fewer. -/
+theorem live_reader_prompt (ps : Nat) (crc : Crc) (hps : WF ps) (full last : Bytes)
+    (hF : PagesOK ps crc full) (hl : Frames crc last) (hll : last.length ≤ ps) (out : List Bytes) (e : Nat)
+    (hr : rloop ps crc RState.init (full ++ last) = (out, .eof e)) (chunks later : List Bytes)
+    (hc : chunks.flatten = full ++ last) :
+    let seen := (liveRun ps crc LState.init [] (chunks ++ later)).take chunks.length
+    seen.length = chunks.length ∧ (∀ o ∈ seen, o.2 = LStatus.eof) ∧ (seen.map (·.1)).flatten = out := by
+  intro seen
+  have e1 : seen = liveRun ps crc LState.init [] chunks := liveRun_take ps crc chunks later LState.init []
+  rw [e1]
+  exact live_reader_open_file ps crc hps full last hF hl hll out e hr chunks hc
+
+/-- The active segment after ANY sequence of `Log` calls (not closed, last page not padded) is such a
+    file, and its records are the tail of the records logged (the earlier ones are in the terminated
+    segments): tailing it returns exactly those. -/
+theorem live_reader_active_segment (ps pps : Nat) (crc : Crc) (hps : WF ps) (batches : List (List Bytes)) :
+    ∃ rsDone rsCur, rsDone ++ rsCur = batches.flatten ∧
+      rloop ps crc RState.init (logAll ps pps crc batches).cur =
+        (rsCur, .eof (logAll ps pps crc batches).cur.length) ∧
+      ∀ chunks later : List Bytes, chunks.flatten = (logAll ps pps crc batches).cur →
+        let seen := (liveRun ps crc LState.init [] (chunks ++ later)).take chunks.length
+        seen.length = chunks.length ∧ (∀ o ∈ seen, o.2 = LStatus.eof) ∧ (seen.map (·.1)).flatten = rsCur := by
+  obtain ⟨sr, rsCur, a, _, _, _, hcur, hrecs⟩ := Inv.logAll pps hps.1 hps.2 batches (crc := crc)
+  obtain ⟨_, full, tail, hcur', hfull, ht, hfr⟩ := LInv.logAll pps hps.1 batches (crc := crc)
+  refine ⟨(sr.map Prod.snd).flatten, rsCur, hrecs, hcur.rloop_eq, ?_⟩
+  intro chunks later hc
+  have hr := hcur.rloop_eq
+  rw [hcur'] at hr hc
+  exact live_reader_prompt ps crc hps full tail hfull hfr (by omega) rsCur _ hr chunks later hc
+
+/-- **The live half of C13**: `live_reader_eq_full` holds — every segment of every log, observed
+    growing through any nondecreasing sequence of prefix lengths, is returned by the tailing reader
+    record for record, with `io.EOF` (never an error) after every observation. -/
+theorem live_reader_eq : live_reader_eq_full := by
+  intro ps pps crc hps batches seg hseg chunks hc
+  obtain ⟨sr, hsegs, hsr, _⟩ := (Inv.logAll pps hps.1 hps.2 batches (crc := crc)).segments
+  have hpages : PagesOK ps crc seg := (LInv.logAll pps hps.1 batches).segments seg hseg
+  rw [hsegs] at hseg
+  obtain ⟨p, hp, rfl⟩ := List.mem_map.mp hseg
+  have h := hsr p hp
+  have hread : readAll ps crc [p.1] = (p.2, .eof p.1.length) := by
+    unfold readAll segStream
+    simp only [List.map_cons, List.map_nil, List.flatten_cons, List.flatten_nil, List.append_nil,
+      segPad_aligned h.end_mod]
+    exact h.rloop_eq
+  rw [hread]
+  exact live_reader_agrees_with_reader ps crc hps p.1 hpages p.2 p.1.length h.rloop_eq chunks hc
+
 /-- A concrete instance (8-byte pages, 32-byte segments, checksum ≡ 7): records `[1,2,3]`, `[]`, `[9]`
     in two batches fill the first segment to its last page and spill into a second one; the first segment
     observed at 5, 13 and 32 bytes yields nothing, nothing, then both records. -/
@@ -107,5 +198,148 @@ theorem live_reader_small_witness :
     liveRun 8 crc LState.init [] [s0.take 5, (s0.drop 5).take 8, s0.drop 13] =
       [([], .eof), ([], .eof), ([[1, 2, 3], []], .eof)] ∧
     liveRun 8 crc LState.init [] [s1.take 7, s1.drop 7] = [([], .eof), ([[9]], .eof)] := by decide
+
+/-! ### Truncation (the corollary C04 builds on)
+
+  A log cut at an arbitrary byte.  Two readers matter: the plain `Reader` over the raw bytes (what
+  `Repair` uses) and the `Reader` over `segmentBufReader` (`readAll`; what `Head.Init`/checkpoints use),
+  which pads a segment whose length is not a multiple of the page size with zeros.  For the plain reader
+  the result is a pure prefix of the records written.  For the zero-padding reader it is NOT: the zeros
+  complete a fragment whose header was cut, and with `crc [] = 0` (true of CRC-32C, `crc32c_nil`)
+  `<type> 00 00 | 00 00 00 00` is a valid empty fragment.  The exact truth, proved for every checksum
+  function (no detection hypothesis), is `truncate_prefix`: a prefix of the records written, followed by
+  at most ONE extra record `q ++ zeros m` where `q` is a prefix of the next record written — a phantom
+  empty record (`truncate_phantom_witness`) or a record that lost its last fragment
+  (`truncate_mangled_witness`); never anything after it, never a record unrelated to the next one. -/
+
+/-- **Truncation, plain reader**: the first `n` bytes of the log (any `n`) read as a prefix of the records
+    written — whole records only. -/
+theorem truncate_prefix_plain (ps pps : Nat) (crc : Crc) (hps : WF ps) (batches : List (List Bytes))
+    (n : Nat) :
+    (rloop ps crc RState.init
+      ((segStream ps (segments ps (logAll ps pps crc batches))).take n)).1 <+: batches.flatten :=
+  plain_truncate_prefix ps pps crc hps.1 hps.2 batches n
+
+/-- **Truncation, zero-padding reader.** The log directory cut in segment `k` at byte `len` (earlier
+    segments whole, later ones gone; `truncSegs`), read with `readAll`: exactly the first `j` records
+    written, then nothing or ONE extra record `q ++ zeros m` with `q` a prefix of record `j`.
+    Unconditional in `crc`, `pps`, the batches, `k` and `len`. -/
+theorem truncate_prefix (ps pps : Nat) (crc : Crc) (hps : WF ps) (batches : List (List Bytes))
+    (k len : Nat) (hk : k < (segments ps (logAll ps pps crc batches)).length) :
+    ∃ j extra, (readAll ps crc (truncSegs (segments ps (logAll ps pps crc batches)) k len)).1 =
+        batches.flatten.take j ++ extra ∧
+      (extra = [] ∨ ∃ r q m, batches.flatten[j]? = some r ∧ q <+: r ∧ extra = [q ++ zeros m]) :=
+  readAll_truncSegs ps pps crc hps.1 hps.2 batches k len hk
+
+/-- The same for a cut at byte `n` of the concatenated segment files followed by `z` zero bytes. -/
+theorem truncate_prefix_stream (ps pps : Nat) (crc : Crc) (hps : WF ps) (batches : List (List Bytes))
+    (n z : Nat) :
+    ∃ j extra, (rloop ps crc RState.init
+        ((segStream ps (segments ps (logAll ps pps crc batches))).take n ++ zeros z)).1 =
+        batches.flatten.take j ++ extra ∧
+      (extra = [] ∨ ∃ r q m, batches.flatten[j]? = some r ∧ q <+: r ∧ extra = [q ++ zeros m]) :=
+  stream_cut_shape ps pps crc hps.1 hps.2 batches n z
+
+/-- Weaker but handy form: a prefix of the records written plus at most one extra record. -/
+theorem truncate_at_most_one_extra (ps pps : Nat) (crc : Crc) (hps : WF ps) (batches : List (List Bytes))
+    (k len : Nat) (hk : k < (segments ps (logAll ps pps crc batches)).length) :
+    ∃ pre extra, (readAll ps crc (truncSegs (segments ps (logAll ps pps crc batches)) k len)).1 = pre ++ extra ∧
+      pre <+: batches.flatten ∧ extra.length ≤ 1 :=
+  readAll_truncSegs_one_extra ps pps crc hps.1 hps.2 batches k len hk
+
+/-- Phantom empty record: one record `[5,6,7]`, the file cut after its first byte; for EVERY checksum
+    with `crc [] = 0` the zero-padding reader returns one empty record that was never written, no error. -/
+theorem truncate_phantom_witness (crc : Crc) (hc : crc [] = 0) :
+    segments 16 (logAll 16 1 crc [[[5, 6, 7]]]) = [frame crc recFull [5, 6, 7] ++ zeros 6] ∧
+    readAll 16 crc (truncSegs [frame crc recFull [5, 6, 7] ++ zeros 6] 0 1) = ([[]], .eof 16) ∧
+    ([] : Bytes) ∉ [[(5 : UInt8), 6, 7]] :=
+  padded_truncation_phantom_witness crc hc
+
+/-- Mangled record: one 12-byte record over two 16-byte pages, the file cut one byte into the header of
+    its `last` fragment; for EVERY checksum with `crc [] = 0` the zero-padding reader returns, without
+    error, the 9-byte record `[1..9]` that was never written. -/
+theorem truncate_mangled_witness (crc : Crc) (hc : crc [] = 0) :
+    segments 16 (logAll 16 2 crc [[[1, 2, 3, 4, 5, 6, 7, 8, 9, 10, 11, 12]]]) =
+      [frame crc recFirst [1, 2, 3, 4, 5, 6, 7, 8, 9] ++ (frame crc recLast [10, 11, 12] ++ zeros 6)] ∧
+    readAll 16 crc (truncSegs
+      [frame crc recFirst [1, 2, 3, 4, 5, 6, 7, 8, 9] ++ (frame crc recLast [10, 11, 12] ++ zeros 6)] 0 17) =
+      ([[1, 2, 3, 4, 5, 6, 7, 8, 9]], .eof 32) :=
+  padded_truncation_mangled_witness crc hc
+
+/-- CRC-32C of the empty string is 0, so both witnesses apply to the real checksum. -/
+theorem crc32c_empty : crc32c [] = 0 := crc32c_nil
+
+/-- The naive statement — "the zero-padding reader returns a prefix of the records written, possibly
+    followed by empty records" — as a Prop … -/
+def truncate_pure_prefix_full : Prop :=
+  ∀ (ps pps : Nat) (crc : Crc), WF ps → ∀ (batches : List (List Bytes)) (k len : Nat),
+    k < (segments ps (logAll ps pps crc batches)).length →
+    ∃ m, (readAll ps crc (truncSegs (segments ps (logAll ps pps crc batches)) k len)).1 <+:
+      batches.flatten ++ List.replicate m []
+
+/-- … is FALSE (the mangled record above, checksum ≡ 0). -/
+theorem truncate_pure_prefix_false_witness : ¬ truncate_pure_prefix_full := by
+  intro h
+  obtain ⟨h1, h2⟩ := truncate_mangled_witness (fun _ => 0) rfl
+  obtain ⟨m, hm⟩ := h 16 2 (fun _ => 0) (by unfold WF; omega) [[[1, 2, 3, 4, 5, 6, 7, 8, 9, 10, 11, 12]]] 0 17
+    (by rw [h1]; simp)
+  rw [h1, h2] at hm
+  obtain ⟨t, ht⟩ := hm
+  simp at ht
+
+/-! ### One damaged byte inside a checksummed payload -/
+
+/-- **Payload damage is detected** (under the explicit hypothesis `CrcDetects1 crc`: changing one byte
+    of a payload changes its checksum).  Let the intact read, after the bytes `A` and whatever follows
+    them, stand in state `st` having returned `out`, in front of a fragment `typ`/`d`.  With one payload
+    byte of that fragment changed on disk the reader returns exactly `out` — the records completed before
+    the damaged fragment — then a checksum error at the end of that fragment, nothing after it; and `out`
+    is a prefix of what the intact log returns. -/
+theorem payload_damage_detected (ps : Nat) (crc : Crc) (hdet : CrcDetects1 crc)
+    (A B d d' : Bytes) (typ : UInt8) (st : RState) (out : List Bytes)
+    (hA : ∀ X, rloop ps crc RState.init (A ++ X) = prep out (rloop ps crc st X))
+    (hty : DataTyp typ) (hlen : d.length ≤ ps - 7) (h16 : d.length < 65536) (hd : OneByteDiff d d') :
+    rloop ps crc RState.init (A ++ (damagedFrame crc typ d d' ++ B)) =
+        (out, .err .crc (st.total + 7 + d.length)) ∧
+      out <+: (rloop ps crc RState.init (A ++ (frame crc typ d ++ B))).1 :=
+  payload_damage_prefix ps crc hdet A B d d' typ st out hA hty hlen h16 hd
+
+/-- The boundary hypothesis `hA` holds behind any whole records as the writer lays them out (`Reads`,
+    the invariant of every log prefix): exactly those records, then the checksum error. -/
+theorem payload_damage_detected_after_records (ps : Nat) (crc : Crc) (hdet : CrcDetects1 crc)
+    (A B d d' : Bytes) (typ : UInt8) (a : Nat) (out : List Bytes) (hA : Reads ps crc 0 A a out)
+    (hty : DataTyp typ) (hlen : d.length ≤ ps - 7) (h16 : d.length < 65536) (hd : OneByteDiff d d') :
+    rloop ps crc RState.init (A ++ (damagedFrame crc typ d d' ++ B)) =
+      (out, .err .crc (A.length + 7 + d.length)) :=
+  payload_damage_after_records ps crc hdet A B d d' typ a out hA hty hlen h16 hd
+
+/-- **One damaged payload byte anywhere in a written log.**  The byte stream of every closed log is a
+    concatenation `items` of fragments and zero runs (the tiling produced by the writer) such that for
+    EVERY fragment of it (payload `p`) and every `p'` differing from `p` in one byte, reading the damaged
+    stream returns a prefix `o` of the records written — exactly what the intact read has returned when
+    it reaches that fragment — and then a checksum error at the end of the damaged fragment. -/
+theorem payload_damage_detected_written (ps pps : Nat) (crc : Crc) (hps : WF ps) (hdet : CrcDetects1 crc)
+    (batches : List (List Bytes)) :
+    ∃ items : List Item,
+      segStream ps (segments ps (logAll ps pps crc batches)) = itemsBytes crc items ∧
+      ∀ (I1 : List Item) (typ : UInt8) (p : Bytes) (I2 : List Item), items = I1 ++ Item.frag typ p :: I2 →
+        ∃ o, o <+: batches.flatten ∧ Boundary ps crc (itemsBytes crc I1) o ∧
+          ∀ p', OneByteDiff p p' →
+            rloop ps crc RState.init (itemsBytes crc I1 ++ (damagedFrame crc typ p p' ++ itemsBytes crc I2)) =
+              (o, .err .crc ((itemsBytes crc I1).length + 7 + p.length)) :=
+  payload_damage_written ps pps crc hps.1 hps.2 hdet batches
+
+/-- The hypotheses are satisfiable: the first fragment of a log written with a detecting checksum. -/
+example (crc : Crc) (h : CrcDetects1 crc) :
+    rloop 32768 crc RState.init ([] ++ (damagedFrame crc recFull [1, 2, 3] [1, 9, 3] ++ [])) =
+      ([], .err .crc (0 + 7 + 3)) :=
+  (payload_damage_detected 32768 crc h [] [] [1, 2, 3] [1, 9, 3] recFull RState.init []
+    (fun X => by simp [prep]) (Or.inl rfl) (by decide) (by decide)
+    ⟨rfl, 1, by decide, by decide, fun j hj => by
+      match j with
+      | 0 => rfl
+      | 1 => exact absurd rfl hj
+      | 2 => rfl
+      | (_ + 3) => rfl⟩).1
 
 end Prom.C13
